@@ -16,3 +16,17 @@
 #if !defined(QTLOGGER_DECL_SPEC)
 #    define QTLOGGER_DECL_SPEC
 #endif
+
+// Verification hooks (schedule points). Compiled out unless QTLOGGER_VERIF is defined.
+#if defined(QTLOGGER_VERIF)
+extern "C" void qtlogger_verif_point(const char *name) __attribute__((weak));
+#    define QTLOGGER_VERIF_POINT(name)                                                              \
+        do {                                                                                       \
+            if (qtlogger_verif_point)                                                              \
+                qtlogger_verif_point(name);                                                        \
+        } while (0)
+#else
+#    define QTLOGGER_VERIF_POINT(name)                                                              \
+        do {                                                                                       \
+        } while (0)
+#endif
